@@ -9,8 +9,53 @@
    every run (Schema/Run.v + harness/c18), not proved. *)
 From Coq Require Import ZArith QArith List String NArith.
 From GSP Require Import Base.Prelude Schema.Json Schema.Regex Schema.Model Schema.Spec
-  Schema.ThRegex Schema.ThJson Schema.Theory Schema.Decide.
+  Schema.ThRegex Schema.ThJson Schema.Theory Schema.Decide Schema.Fuel Schema.Complete.
 Import ListNotations.
+
+(* MAIN STATEMENT.  For every environment of $ref targets, every schema whose $ref
+   chains end within the fuel (static check `ref_bounded`), and EVERY instance:
+   the executable validator answers, and it answers true exactly for conforming
+   instances, false exactly for non-conforming ones. *)
+Theorem C18_decides_bounded :
+  forall (E : env) (fuel : nat) (S : schema) (j : json),
+  ref_bounded E fuel S = true ->
+  (validate E fuel S j = Some true <-> Valid E S j) /\
+  (validate E fuel S j = Some false <-> ~ Valid E S j).
+Proof. exact bounded_decides. Qed.
+Print Assumptions C18_decides_bounded.
+
+Theorem C18_bounded_total :
+  forall (E : env) (n : nat) (S : schema),
+  ref_bounded E n S = true -> forall j : json, validate E n S j <> None.
+Proof. exact bounded_defined. Qed.
+Print Assumptions C18_bounded_total.
+
+Theorem C18_bounded_invalid_is_not_valid :
+  forall (E : env) (fuel : nat) (S : schema) (j : json),
+  ref_bounded E fuel S = true -> (Invalid E S j <-> ~ Valid E S j).
+Proof. exact bounded_invalid_iff_not_valid. Qed.
+Print Assumptions C18_bounded_invalid_is_not_valid.
+
+(* for ALL schemas (also recursive ones, where the fuel needed depends on the
+   instance): conformance is exactly "validate says true for some fuel" *)
+Theorem C18_complete :
+  forall (E : env) (S : schema) (j : json),
+  Valid E S j <-> exists fuel : nat, validate E fuel S j = Some true.
+Proof. exact valid_iff_validate. Qed.
+Print Assumptions C18_complete.
+
+Theorem C18_complete_invalid :
+  forall (E : env) (S : schema) (j : json),
+  Invalid E S j <-> exists fuel : nat, validate E fuel S j = Some false.
+Proof. exact invalid_iff_validate. Qed.
+Print Assumptions C18_complete_invalid.
+
+Theorem C18_fuel_monotone :
+  forall (E : env) (f : nat) (S : schema) (j : json) (b : bool),
+  validate E f S j = Some b ->
+  exists F : nat, forall f' : nat, (F <= f')%nat -> validate E f' S j = Some b.
+Proof. exact validate_monotone. Qed.
+Print Assumptions C18_fuel_monotone.
 
 (* for ALL environments of $ref targets, schemas and instances: whenever the fuel
    suffices for the $ref chains met on this instance (validate returns a definite
